@@ -219,6 +219,22 @@ impl G {
             self.last_int = true;
             return out;
         }
+        // mail for the session's own process: a child sends two numbered messages, the first is taken
+        // by the step that spawned it, the second by a later step - on a later line it may have arrived
+        // while the session slept between lines
+        if rng.chance(1, 16) {
+            let (f, c) = (self.fresh("sndq"), self.fresh("lc"));
+            let (m1, m2) = (rng.range(100, 400), rng.range(500, 900));
+            let sp = *rng.pick(&[0u32, 10, 80, 300]);
+            out.push(s(format!("{f} = #(@'int) {{ =to, {m1} to, w = [{sp}, 0] spin, {m2} to, 0 }}")));
+            out.push(s(format!("{c} = &. @{f}, !#'int")));
+            if rng.chance(1, 2) {
+                out.push(s(format!("[~, {}] __integer_add__", rng.range(1, 9))));
+            }
+            out.push(s("!#'int".to_string()));
+            self.last_int = true;
+            return out;
+        }
         if rng.chance(1, 14) {
             let u = self.fresh("u");
             out.push(s(format!("{u} = {} wd", rng.range(1, 90))));
@@ -745,7 +761,10 @@ impl Property for C11 {
                 if e.rejected.contains(src) {
                     continue;
                 }
-                let silent = matches!(out, Out::Value(s) if s == "[]") || matches!(out, Out::RuntimeError(_)) || e.steps.iter().any(|s| s.tailcall && src.contains(&s.src));
+                // (a line of the program that was rejected - judged on its own, as a violation or a
+                // known finding - leaves later lines without its bindings: a receive whose sender was
+                // never spawned waits for ever, legitimately)
+                let silent = matches!(out, Out::Value(s) if s == "[]") || matches!(out, Out::RuntimeError(_) | Out::CompileError(_) | Out::ParseError) || e.steps.iter().any(|s| s.tailcall && src.contains(&s.src));
                 if silent {
                     return true;
                 }
